@@ -5,6 +5,8 @@ package main
 import (
 	"fmt"
 	"strings"
+
+	"golang.org/x/tools/go/ssa"
 )
 
 // lemmaObligation turns a lemma into one obligation: hyps ==> goal over universally quantified vars.
@@ -39,6 +41,74 @@ func (p *Prog) lemmaObligation(lm *Lemma) ([]*Obligation, error) {
 	cov := &Obligation{Name: "lemma." + lm.Name + "/COVER.hyps", Class: "COVER", Props: lm.Props, Goal: TTrue, Expect: "sat", FuncKey: "lemma." + lm.Name,
 		Script: sc, Desc: "lemma hypotheses are satisfiable", cutDecls: -1, cutAsserts: -1}
 	return []*Obligation{ob, cov}, nil
+}
+
+// globalInvObligations verifies the package initialiser against the package's global invariants and
+// checks that no other function of the module stores to a package-level variable of that package.
+func (p *Prog) globalInvObligations(pkgPath string, invs []Clause, prop string) ([]*Obligation, funcInfo, error) {
+	var sp *ssa.Package
+	for _, x := range p.ssaPkgs {
+		if x != nil && x.Pkg.Path() == pkgPath {
+			sp = x
+		}
+	}
+	if sp == nil {
+		return nil, funcInfo{}, fmt.Errorf("globalinv: package %s not loaded", pkgPath)
+	}
+	initFn := sp.Func("init")
+	sk := p.shortKey(pkgPath) + ".init"
+	fc := &FuncContract{Target: "init", PkgPath: pkgPath, Props: []string{prop}, LoopInv: map[int][]Clause{}, Unreach: map[int]bool{}, ModAll: true}
+	for _, cl := range invs {
+		c := cl
+		c.Kind = "ensures"
+		if c.Label == "" {
+			c.Label = fmt.Sprintf("globalinv%d", len(fc.Ensures))
+		}
+		fc.Ensures = append(fc.Ensures, c)
+	}
+	enc := p.newEnc(initFn, fc, sk)
+	if err := enc.Run(); err != nil {
+		return nil, funcInfo{}, err
+	}
+	var out []*Obligation
+	for _, ob := range enc.obls {
+		if ob.Class == "ensures" || ob.Class == "COVER" && strings.HasSuffix(ob.Name, "COVER.exit") {
+			ob.Props = []string{prop}
+			out = append(out, ob)
+		}
+	}
+	// writers of the package's globals outside init
+	for key, fn := range p.funcs {
+		if fn == initFn || fn.Pkg == nil {
+			continue
+		}
+		for _, b := range fn.Blocks {
+			for _, ins := range b.Instrs {
+				st, ok := ins.(*ssa.Store)
+				if !ok {
+					continue
+				}
+				if g, ok := st.Addr.(*ssa.Global); ok && g.Pkg == sp && !strings.HasPrefix(g.Name(), "init$") {
+					mentioned := false
+					for _, cl := range invs {
+						if strings.Contains(cl.Text, g.Name()) {
+							mentioned = true
+						}
+					}
+					if mentioned {
+						out = append(out, &Obligation{Name: sk + "/GLOBAL.frame." + g.Name(), Class: "FRAME", Props: []string{prop}, Expect: "unsat", Status: "failed",
+							Desc: "package-level variable " + g.Name() + " (subject of a global invariant) is written outside init, in " + p.shortKey(key),
+							FuncKey: sk, Result: SolverResult{Solver: "govc", Answer: "global-written"}})
+					}
+				}
+			}
+		}
+	}
+	out = append(out, &Obligation{Name: sk + "/GLOBAL.frame", Class: "FRAME", Props: []string{prop}, Expect: "unsat", Status: "discharged",
+		Desc: "no function other than init stores to the package-level variables named in the global invariants (scan of every function in the module)",
+		FuncKey: sk, Result: SolverResult{Solver: "govc-structural", Answer: "unsat"}})
+	src, h := p.funcSource(initFn)
+	return out, funcInfo{Key: sk, Source: src, Hash: h, Obls: len(out)}, nil
 }
 
 func propertyExplanation(prop string) string {
